@@ -14,6 +14,8 @@ All statements quantify over every `r`, every `N`, every starting point.
 -/
 import SnowModel.Core.Stop
 import SnowModel.Proofs.C07
+import SnowModel.Core.StopTables
+import SnowModel.Proofs.C07Tables
 
 namespace SnowModel.Props.C07
 open SnowModel.Stop
@@ -265,5 +267,79 @@ theorem run_terminates_any (tables : List String) (c : Crit) (cont : Cont) (r : 
         unknown_target_rejected tables c cont r _ hR (by rw [hEm]; exact hE)
       unfold run; rw [this]; simp
     · exact (run_terminates tables c cont r ⟨hR, hEm⟩ 0).1 n
+
+/-! ### … where "the recipe cannot create" is read off the recipe itself
+
+`parse_result.tables`, against which `Interpreter.__init__` validates the target, is what the parser
+registered while parsing the recipe's own statement list (`StopTables.parseTables`).  The theorems
+below tie it to the declarative notion `StopTables.Reach`: some template reachable from the
+top-level statements — through nested fields, friends and *included* macros — has that table.
+A macro that is declared but never included contributes nothing. -/
+
+open SnowModel.StopTables in
+/-- **tables_iff_reach.** For every recipe (any macro table, any nesting, any fuel that lets the
+    parse finish): a name is among `parse_result.tables` iff the recipe can create that table and
+    the name is not hidden. -/
+theorem tables_iff_reach (fuel : Nat) (rc : Recipe) (tabs : List String)
+    (h : parseTables fuel rc = .ok tabs) (x : String) :
+    x ∈ tabs ↔ Reach rc x ∧ visible x = true := by
+  unfold parseTables at h
+  cases h1 : parseL fuel rc.macros [] [] rc.statements with
+  | error e => simp [h1] at h
+  | ok acc =>
+    simp only [h1] at h
+    injection h with h
+    subst h
+    have := (Proofs.C07Tables.parse_spec rc.macros fuel).2.1 [] [] rc.statements acc h1 x
+    rw [List.mem_filter, this]
+    simp [Reach, Proofs.C07Tables.ReachL]
+
+open SnowModel.StopTables in
+/-- **unknown_target_rejected (over recipes).** If no template reachable from the recipe's
+    statements has the target table, the run is rejected by `Interpreter.__init__` — before the
+    loop, before any row — whatever macros are declared, for every continuation, `r` and fuel. -/
+theorem unknown_target_rejected_recipe (pfuel : Nat) (rc : Recipe) (tabs : List String)
+    (h : parseTables pfuel rc = .ok tabs) (c : Crit) (cont : Cont) (r : Nat → Nat) (fuel : Nat)
+    (hT : c.tablename ≠ COUNT_REPS) (hu : ¬ Reach rc c.tablename) :
+    runFuel tabs c cont r fuel = .rejected := by
+  apply unknown_target_rejected tabs c cont r fuel hT
+  have : ¬ c.tablename ∈ tabs := fun hm => hu ((tables_iff_reach pfuel rc tabs h _).mp hm).1
+  simpa using this
+
+open SnowModel.StopTables in
+/-- … and conversely a visible table the recipe can create is never rejected. -/
+theorem creatable_target_not_rejected (pfuel : Nat) (rc : Recipe) (tabs : List String)
+    (h : parseTables pfuel rc = .ok tabs) (c : Crit) (cont : Cont) (r : Nat → Nat) (fuel : Nat)
+    (hr : Reach rc c.tablename) (hv : visible c.tablename = true) :
+    runFuel tabs c cont r fuel ≠ .rejected := by
+  apply known_target_not_rejected tabs c cont r fuel
+  left
+  have := (tables_iff_reach pfuel rc tabs h c.tablename).mpr ⟨hr, hv⟩
+  simpa using this
+
+open SnowModel.StopTables in
+/-- A hidden (`__`) name is rejected even when the recipe creates it (`parse_result.tables` drops
+    hidden names; the property does not ask for more). -/
+theorem hidden_target_rejected (pfuel : Nat) (rc : Recipe) (tabs : List String)
+    (h : parseTables pfuel rc = .ok tabs) (c : Crit) (cont : Cont) (r : Nat → Nat) (fuel : Nat)
+    (hT : c.tablename ≠ COUNT_REPS) (hv : visible c.tablename = false) :
+    runFuel tabs c cont r fuel = .rejected := by
+  apply unknown_target_rejected tabs c cont r fuel hT
+  have : ¬ c.tablename ∈ tabs := fun hm => by
+    have := ((tables_iff_reach pfuel rc tabs h _).mp hm).2
+    rw [hv] at this; cases this
+  simpa using this
+
+section
+open SnowModel.StopTables
+/-- non-vacuity: macro `used` (friend `F`) is included by `T`; macro `ghostm` (friend `Ghost`, nested
+    `Deep`) is declared but never included: `Ghost` and `Deep` are not tables of the recipe. -/
+def exampleRecipe : Recipe :=
+  { macros := [⟨"used", [], [.mk "F" [] []]⟩, ⟨"ghostm", ["used"], [.mk "Ghost" [] [.mk "Deep" [] []]]⟩],
+    statements := [.mk "M" [] [], .mk "T" ["used"] [.mk "__H" [] [.mk "V" [] []]]] }
+
+example : (parseTables 20 exampleRecipe).toOption = some ["M", "F", "V", "T"] := by decide
+example : runFuel ["M", "F", "V", "T"] ⟨"Ghost", 3⟩ none (fun _ => 0) 5 = .rejected := by decide
+end
 
 end SnowModel.Props.C07
